@@ -13,6 +13,10 @@ from . import discharge
 from . import npmodel
 
 ROOT = os.path.dirname(os.path.dirname(os.path.abspath(__file__)))
+# runs against a scratch copy of the repository (mutation self-test, seeded
+# changes) must not overwrite the evidence / replays of the real tree
+OUT = ROOT if os.path.realpath(REPO) == '/repo' else os.path.join(
+    ROOT, 'scratch', 'alt_' + os.path.basename(os.path.realpath(REPO)))
 
 TRUSTED_BASE = [
     'pyvc (this repository /verif/pyvc): AST interpreter + VC generator written '
@@ -243,7 +247,7 @@ def run_property(prop, tier='quick', seed=0):
                                result=r, replay=rep,
                                found=bool(rep and rep.get('found'))))
     n_viol = 0
-    os.makedirs(os.path.join(ROOT, 'replays', prop), exist_ok=True)
+    os.makedirs(os.path.join(OUT, 'replays', prop), exist_ok=True)
     for v in violations:
         match = None
         for k in known:
@@ -258,7 +262,7 @@ def run_property(prop, tier='quick', seed=0):
             print('KNOWN-FINDING: property={} {}'.format(prop, match['what']))
             continue
         n_viol += 1
-        path = os.path.join(ROOT, 'replays', prop, sanitize(v['name']) + '.json')
+        path = os.path.join(OUT, 'replays', prop, sanitize(v['name']) + '.json')
         with open(path, 'w') as f:
             json.dump(dict(property=prop, obligation=v['name'],
                            verdict=v['verdict'], solver=v.get('result'),
@@ -323,6 +327,6 @@ def write_evidence(prop, tier, seed, cx, results, covers, info, wall,
               coverage=cov,
               assumptions=list(cx.assumptions) + info.get('assumptions', []),
               wall_s=round(wall, 2), violations=violations)
-    os.makedirs(os.path.join(ROOT, 'evidence'), exist_ok=True)
-    with open(os.path.join(ROOT, 'evidence', prop + '.json'), 'w') as f:
+    os.makedirs(os.path.join(OUT, 'evidence'), exist_ok=True)
+    with open(os.path.join(OUT, 'evidence', prop + '.json'), 'w') as f:
         json.dump(ev, f, indent=1, default=str)
